@@ -25,6 +25,20 @@ AWS_EXTERN_C_BEGIN
 
 typedef size_t aws_atomic_impl_int_t;
 
+#ifdef AWS_C_COMMON_VERIF
+/* Verification hook (off unless AWS_C_COMMON_VERIF is defined): a schedule point before every atomic access.
+ * The pointer is NULL unless a verification harness installs a callback. kind: 0 load, 1 store, 2 read-modify-write. */
+__attribute__((weak)) void (*aws_verif_atomic_hook)(int kind, const volatile void *var) = 0;
+#    define AWS_VERIF_ATOMIC_POINT(kind, var)                                                                          \
+        do {                                                                                                           \
+            if (aws_verif_atomic_hook) {                                                                               \
+                aws_verif_atomic_hook((kind), (var));                                                                  \
+            }                                                                                                          \
+        } while (0)
+#else
+#    define AWS_VERIF_ATOMIC_POINT(kind, var)
+#endif
+
 static inline int aws_atomic_priv_xlate_order(enum aws_memory_order order) {
     switch (order) {
         case aws_memory_order_relaxed:
@@ -65,6 +79,7 @@ void aws_atomic_init_ptr(volatile struct aws_atomic_var *var, void *p) {
  */
 AWS_STATIC_IMPL
 size_t aws_atomic_load_int_explicit(volatile const struct aws_atomic_var *var, enum aws_memory_order memory_order) {
+    AWS_VERIF_ATOMIC_POINT(0, var);
     return __atomic_load_n(&AWS_ATOMIC_VAR_INTVAL(var), aws_atomic_priv_xlate_order(memory_order));
 }
 
@@ -73,6 +88,7 @@ size_t aws_atomic_load_int_explicit(volatile const struct aws_atomic_var *var, e
  */
 AWS_STATIC_IMPL
 void *aws_atomic_load_ptr_explicit(volatile const struct aws_atomic_var *var, enum aws_memory_order memory_order) {
+    AWS_VERIF_ATOMIC_POINT(0, var);
     return __atomic_load_n(&AWS_ATOMIC_VAR_PTRVAL(var), aws_atomic_priv_xlate_order(memory_order));
 }
 
@@ -81,6 +97,7 @@ void *aws_atomic_load_ptr_explicit(volatile const struct aws_atomic_var *var, en
  */
 AWS_STATIC_IMPL
 void aws_atomic_store_int_explicit(volatile struct aws_atomic_var *var, size_t n, enum aws_memory_order memory_order) {
+    AWS_VERIF_ATOMIC_POINT(1, var);
     __atomic_store_n(&AWS_ATOMIC_VAR_INTVAL(var), n, aws_atomic_priv_xlate_order(memory_order));
 }
 
@@ -89,6 +106,7 @@ void aws_atomic_store_int_explicit(volatile struct aws_atomic_var *var, size_t n
  */
 AWS_STATIC_IMPL
 void aws_atomic_store_ptr_explicit(volatile struct aws_atomic_var *var, void *p, enum aws_memory_order memory_order) {
+    AWS_VERIF_ATOMIC_POINT(1, var);
     __atomic_store_n(&AWS_ATOMIC_VAR_PTRVAL(var), p, aws_atomic_priv_xlate_order(memory_order));
 }
 
@@ -101,6 +119,7 @@ size_t aws_atomic_exchange_int_explicit(
     volatile struct aws_atomic_var *var,
     size_t n,
     enum aws_memory_order memory_order) {
+    AWS_VERIF_ATOMIC_POINT(2, var);
     return __atomic_exchange_n(&AWS_ATOMIC_VAR_INTVAL(var), n, aws_atomic_priv_xlate_order(memory_order));
 }
 
@@ -113,6 +132,7 @@ void *aws_atomic_exchange_ptr_explicit(
     volatile struct aws_atomic_var *var,
     void *p,
     enum aws_memory_order memory_order) {
+    AWS_VERIF_ATOMIC_POINT(2, var);
     return __atomic_exchange_n(&AWS_ATOMIC_VAR_PTRVAL(var), p, aws_atomic_priv_xlate_order(memory_order));
 }
 
@@ -128,6 +148,7 @@ bool aws_atomic_compare_exchange_int_explicit(
     size_t desired,
     enum aws_memory_order order_success,
     enum aws_memory_order order_failure) {
+    AWS_VERIF_ATOMIC_POINT(2, var);
     return __atomic_compare_exchange_n(
         &AWS_ATOMIC_VAR_INTVAL(var),
         expected,
@@ -149,6 +170,7 @@ bool aws_atomic_compare_exchange_ptr_explicit(
     void *desired,
     enum aws_memory_order order_success,
     enum aws_memory_order order_failure) {
+    AWS_VERIF_ATOMIC_POINT(2, var);
     return __atomic_compare_exchange_n(
         &AWS_ATOMIC_VAR_PTRVAL(var),
         expected,
@@ -163,6 +185,7 @@ bool aws_atomic_compare_exchange_ptr_explicit(
  */
 AWS_STATIC_IMPL
 size_t aws_atomic_fetch_add_explicit(volatile struct aws_atomic_var *var, size_t n, enum aws_memory_order order) {
+    AWS_VERIF_ATOMIC_POINT(2, var);
     return __atomic_fetch_add(&AWS_ATOMIC_VAR_INTVAL(var), n, aws_atomic_priv_xlate_order(order));
 }
 
@@ -171,6 +194,7 @@ size_t aws_atomic_fetch_add_explicit(volatile struct aws_atomic_var *var, size_t
  */
 AWS_STATIC_IMPL
 size_t aws_atomic_fetch_sub_explicit(volatile struct aws_atomic_var *var, size_t n, enum aws_memory_order order) {
+    AWS_VERIF_ATOMIC_POINT(2, var);
     return __atomic_fetch_sub(&AWS_ATOMIC_VAR_INTVAL(var), n, aws_atomic_priv_xlate_order(order));
 }
 
@@ -179,6 +203,7 @@ size_t aws_atomic_fetch_sub_explicit(volatile struct aws_atomic_var *var, size_t
  */
 AWS_STATIC_IMPL
 size_t aws_atomic_fetch_or_explicit(volatile struct aws_atomic_var *var, size_t n, enum aws_memory_order order) {
+    AWS_VERIF_ATOMIC_POINT(2, var);
     return __atomic_fetch_or(&AWS_ATOMIC_VAR_INTVAL(var), n, aws_atomic_priv_xlate_order(order));
 }
 
@@ -187,6 +212,7 @@ size_t aws_atomic_fetch_or_explicit(volatile struct aws_atomic_var *var, size_t 
  */
 AWS_STATIC_IMPL
 size_t aws_atomic_fetch_and_explicit(volatile struct aws_atomic_var *var, size_t n, enum aws_memory_order order) {
+    AWS_VERIF_ATOMIC_POINT(2, var);
     return __atomic_fetch_and(&AWS_ATOMIC_VAR_INTVAL(var), n, aws_atomic_priv_xlate_order(order));
 }
 
@@ -195,6 +221,7 @@ size_t aws_atomic_fetch_and_explicit(volatile struct aws_atomic_var *var, size_t
  */
 AWS_STATIC_IMPL
 size_t aws_atomic_fetch_xor_explicit(volatile struct aws_atomic_var *var, size_t n, enum aws_memory_order order) {
+    AWS_VERIF_ATOMIC_POINT(2, var);
     return __atomic_fetch_xor(&AWS_ATOMIC_VAR_INTVAL(var), n, aws_atomic_priv_xlate_order(order));
 }
 
